@@ -103,6 +103,7 @@ class Engine:
         self.inputs = {}             # name -> (kind, z3 var, flavour)
         self.choices = {}            # name -> chosen index
         self.hints = []
+        self.cex_hints = []
         self.notes = []
         self.stub_calls = {}
         self._fresh = 0
@@ -400,7 +401,7 @@ class Engine:
             if not z1.eq(z2):
                 m = 2 ** 61 - 1
                 self.hint(z3.Or(z3.And(z1 >= 0, z2 == z1 + m), z3.And(z1 <= 0, z2 == z1 - m),
-                                z3.And(z1 == -1, z2 == -2), z3.And(z1 == -2, z2 == -1)))
+                                z3.And(z1 == -1, z2 == -2), z3.And(z1 == -2, z2 == -1)), cex_only=True)
                 self._loose_hinted = True
                 self.notes.append('hash-value-used-outside-recording')
                 break
@@ -575,9 +576,10 @@ class Engine:
             raise PathAbort('assume-false')
         self._add(z)
 
-    def hint(self, cond):
-        """Soft constraint used only when picking the witness model."""
-        self.hints.append(as_z3_bool(cond))
+    def hint(self, cond, cex_only=False):
+        """Soft constraint used only when picking models: witness and counterexample models, or (cex_only)
+        counterexample models only -- such hints cost nothing on paths whose obligations all hold."""
+        (self.cex_hints if cex_only else self.hints).append(as_z3_bool(cond))
 
     # ---------------------------------------------------------- obligations
     def check(self, prop, label, key=None, info=None):
@@ -693,12 +695,13 @@ class Engine:
         """input name -> encoded value under `model`; tries to make decimal-
         flavoured inputs decimal-representable."""
         hinted = []
-        if self.hints and extra is not None:
+        all_hints = list(self.hints) + list(self.cex_hints)
+        if all_hints and extra is not None:
             # stubs may have left hints about which values make their chosen outcome real
-            r, mh = self._query([extra] + list(self.hints), min(self.feas_ms, 1500))
+            r, mh = self._query([extra] + all_hints, min(self.feas_ms, 1500))
             if r == 'sat':
                 model = mh
-                hinted = list(self.hints)
+                hinted = all_hints
         out = {}
         bad = False
         for name, (kind, var, flav) in self.inputs.items():
